@@ -4,8 +4,11 @@
    level) must be a behaviour of ChannelMachine.  The call arguments are bound from
    the log; reply and projection are then determined by the specification and
    compared in the invariant Conform, so a divergence is reported with the expected
-   values.  A reactor level trace logs only the part of the projection the exported
-   reactor API exposes; Conform compares the logged fields. *)
+   values.  A reactor or follower level trace logs only the part of the projection the
+   exported reactor API exposes (RetentionView, RuntimeProbe); Conform compares the logged
+   fields.  At the follower level the schedule of the reactor (which calls are outstanding)
+   is state of the specification, so a completion in the log must be one the specification
+   has outstanding. *)
 EXTENDS ChannelMachine, Json, TLC
 VARIABLE l
 
